@@ -151,7 +151,9 @@ func ParseOne(reader *bufio.Reader) (*ChangelogEntry, error) {
 	_, signoff = partition(signoff, "--")  /* Get rid of the leading " -- " */
 	whom, when := partition(signoff, "  ") /* Split on the "  " */
 	changeLog.ChangedBy = trim(whom)
-	changeLog.When, err = time.Parse(whenLayout, trim(when))
+	/* "zero or more spaces" after the weekday's comma; the layout's ", "
+	 * stands for one or more */
+	changeLog.When, err = time.Parse(whenLayout, strings.Replace(trim(when), ",", ", ", 1))
 	if err != nil {
 		return nil, fmt.Errorf("Failed parsing When %q: %v", when, err)
 	}
